@@ -10,11 +10,40 @@ CHECKS = {
         note="Trusts ast/PyYAML parsing, the design-time-validated parameter and DAG models (guarded by anchor probes), and Python's typing of arithmetic on native scalars.",
     ),
 }
+CHECKS.update({
+    "C07": dict(
+        technique="registry interval-disjointness check; exhaustive evaluation of the extracted date predicates over all weak orderings; YAML dated-entry lint; parameter-loader model evaluated on every equivalence interval",
+        text="Decides, for all dates at once, the structural half of 'the environment is the law in force': (R) every column name has pairwise disjoint validity intervals across all modules, so the implementation chosen never depends on import order; (O) the activity test, the parameter selector, the rounding selector and the registration conflict test, extracted from the source, equal the inclusive predicates on every weak ordering of the dates involved (13/3/3/26 orderings - exhaustive); (Y) every dated YAML entry is reachable (real date keys), every deviation/look-up target resolves on every equivalence interval since 1980, and nothing changes inside an interval. The statutory values themselves are not decided.",
+        ref="DESIGN.md §4 C07, §3.2, §3.6",
+        note="Trusts ast/PyYAML parsing and the parameter-loader model (design-time differential validation; loader facts re-read from the source on every run).",
+    ),
+    "C08": dict(
+        technique="static DAG reconstruction per equivalence interval + abstract interpretation of every reachable rule with that interval's concrete parameters (both branches of data-dependent tests)",
+        text="For the first and last day of every equivalence interval from 2015-01-01 (between change dates nothing changes), the dependency graph of the default targets over the documented inputs is rebuilt from syntax trees and config tables: acyclic (K1), leaves are documented inputs (K2), every parameter path any reachable rule can read on any branch exists and is non-null (K3), sibling tables keyed by the same data value agree on their keys (K3s), rounding specs exist (K4), no reachable not-implemented rule or aggregate (K5), aggregation dtype preconditions hold (K6). Full for constant and finitely resolvable look-ups; look-ups keyed by data values are listed, not decided.",
+        ref="DESIGN.md §4 C08, §3.3, §3.4",
+        note="Trusts the static DAG model and the parameter model (both validated differentially at design time, guarded by probes); 'valid population' = columns named and typed as documented, no value domains assumed.",
+    ),
+    "C13": dict(
+        category="proof",
+        technique="exact rational folding of the converter bodies and unit constants; structural agreement of table, creation site and factory; unit-family check on the static DAG",
+        text="Every obligation is an identity over the rationals: each of the 12 converters folds to (N[a]/N[b])*value with the documented periods per year, which implies exact round trips, composition and commutation with sums; the table maps each key to the converter of that name, the creation site looks the converter up source-unit-first and feeds it the source column; explicit members of one unit family are literal conversions of one another on every interval's DAG. Floating-point error is not decided.",
+        ref="DESIGN.md §4 C13, §3.7",
+        note="Trusted base: python ast, fractions.Fraction, the unit table of GEP-4.",
+    ),
+    "C18": dict(
+        category="proof",
+        technique="exact rational re-derivation of every piecewise schedule version from the YAML literals; per-piece inequalities; structural probes of the evaluator",
+        text="For every schedule of type piecewise_* and every date at which it changes, thresholds/rates/intercepts are re-derived with Fraction arithmetic and every obligation (full real-line coverage, strictly increasing thresholds, complete rates; income tax zero to the allowance, continuous, non-decreasing, convex, marginal <= top rate; soli continuous, non-decreasing, <= rate*tax + 0.01) is an identity or inequality between rationals, all discharged or the check fails. The evaluator's bin selection (right-continuous), increment base and rate/power pairing are checked structurally. Floating-point exactness at threshold +/- 1 ulp is not decided.",
+        ref="DESIGN.md §4 C18",
+        note="Trusted base: python ast, PyYAML, fractions.Fraction, the documented schedule semantics, the parameter-loader model for deviation_from resolution.",
+    ),
+})
 NOT_APPLICABLE = {
     "C04": "Compares values of two runs under different target sets / debug options; the only structural handle (non-interference of `targets` with node definitions) lives in dict comprehensions keyed by computed strings and in the third-party `dags` package - no necessary condition that is both statically checkable and robust to behaviour-preserving refactoring was found (DESIGN.md §6).",
     "C12": "Whether the row scans in groupings.py compute the partition the unit definitions prescribe, for every pointer graph and row order, is a property of a data-dependent algorithm over runtime values; it needs execution or model checking, not static analysis (DESIGN.md §6). Structural by-products are decided under C15, C17 and C20.",
 }
 PENDING = {}
+FIX_COMMITS = ["1135a11"]
 
 
 def main():
@@ -47,7 +76,7 @@ def main():
             "guard": "GETTSIM_VERIF",
             "enable": "none - the checks parse /repo's sources and need no instrumentation; the guard is declared but unused",
             "baseline_off_cmd": "cd /repo && /venv/bin/python -m pytest -ra -q -p no:cacheprovider --timeout=900 --continue-on-collection-errors",
-            "source_commits": [],
+            "source_commits": FIX_COMMITS,
             "add_only": True,
         },
         "engines": [{
